@@ -87,6 +87,66 @@ def run(ctx):
         for ci, _ in part:
             for k in [k for k in types_seen if k[0] == ci]:
                 types_seen.pop(k, None)
+    # gather() is a function of what is registered NOW: a name used by one kind, scraped, unregistered and then used by another
+    # kind (a legal history; nothing is mixed at any time) is declared and printed with the new kind
+    import c07
+    single = [c for c in cases if not any(len(f["types"]) > 1 for f in c["g"])]
+    byreg = {}
+    for c in single:
+        byreg.setdefault((c["prefix"], json.dumps(c["common"])), []).append(c)
+    pairs = []
+    for lst in byreg.values():
+        for a in lst:
+            ta = {f["name"]: f["types"] for f in a["g"]}
+            for b in lst:
+                if a is not b and any(f["name"] in ta and ta[f["name"]] != f["types"] for f in b["g"]):
+                    pairs.append((a, b))
+    rnd.shuffle(pairs)
+    pairs = pairs[:60 if ctx.quick else 3000]
+    hjobs = []
+    for k, (a, b) in enumerate(pairs):
+        oa, ob = sorted(a["sel"]), sorted(b["sel"])
+        rnd.shuffle(oa); rnd.shuffle(ob)
+        calls = [registry_call(a["prefix"], a["common"])]
+        for i in dict.fromkeys(oa + ob):
+            calls += ctor_calls(i)
+        calls += [{"op": "register", "reg": "r", "obj": i} for i in oa] + [{"op": "gather", "reg": "r"}, {"op": "text_encode", "reg": "r"}]
+        calls += [{"op": "unregister", "reg": "r", "obj": i} for i in oa]
+        calls += [{"op": "register", "reg": "r", "obj": i} for i in ob] + [{"op": "gather", "reg": "r"}, {"op": "text_encode", "reg": "r"}]
+        hjobs.append({"id": k, "calls": calls})
+    hres = run_api(ctx, exe, hjobs, "hist", nproc=8)
+    nhist = 0
+    for j, (a, b) in zip(hjobs, pairs):
+        rs = hres[j["id"]]
+        rp = {"calls": j["calls"], "case": b}
+        if any("ok" not in x for x in rs[:-1]) and not any("UNTYPED" in f["types"] for f in a["g"] + b["g"]):
+            ctx.violation("history:call-failed", "a call of a legal register / gather / unregister / register history failed: %s" % [x for x in rs if "ok" not in x][0], rp)
+            continue
+        g2 = rs[-2]
+        if "ok" not in g2:
+            continue
+        why = c07.compare(b, g2["ok"])
+        bad_payload = [(f["name"], f["type"], m["present"]) for f in g2["ok"] for m in f["metrics"] if "present" in m and m["present"] != [PAYLOAD[f["type"]]]]
+        if why or bad_payload:
+            ctx.violation("history:stale-kind", "registry first holding %s (scraped, then unregistered) and now holding %s: gather() does not describe the current content — %s" % (
+                sorted(a["sel"]), sorted(b["sel"]), why or "family/type/payload %s" % bad_payload[:2]), rp)
+            continue
+        if "ok" in rs[-1]:
+            tv = text_values(rs[-1]["ok"]["hex"])
+            wrong = None
+            for e in b["g"]:
+                for s_ in e["samples"]:
+                    if s_["type"] == "HISTOGRAM":
+                        continue
+                    lab = sorted(s_["labels"] + s_["common"], key=lambda p: p[0])
+                    cands = [v for h, v in tv.items() if h.split("{")[0] == e["name"] and all(('%s="%s"' % (n, x)) in h for n, x in lab)]
+                    if str(s_["v"]) not in cands and ("%s" % float(s_["v"])) not in cands:
+                        wrong = (e["name"], lab, s_["v"], cands)
+            if wrong:
+                ctx.violation("history:printed-value", "registry first holding %s, now %s: sample %s%s has value %s but is printed as %s" % (sorted(a["sel"]), sorted(b["sel"]), wrong[0], wrong[1], wrong[2], wrong[3]), rp)
+                continue
+        nhist += 1
+    ctx.cov["kind_swap_histories_conforming"] = nhist
     ctx.cov.update({
         "traces_validated_against_impl": nok, "configurations": len(cases), "gathers": njobs, "gathers_mixed_kind_configurations": nmixed, "gathers_conforming": nok,
         "samples": [cases[len(cases) // 3]],
